@@ -2450,3 +2450,38 @@ def replay_c07_small(args):
             except Exception as e:
                 bad.append((repr(e)[:40], P, Q))
     return (len(bad) > 0), "c07_small GF(%d) b=%d: %d failures %s" % (p, b, len(bad), str(bad[:2])[:200])
+
+
+def replay_c18_small(args):
+    """the secp256k1 module with its constants rebound to a small prime-order curve, enumerated concretely against an affine oracle."""
+    from py_ecc.secp256k1 import secp256k1 as sp
+    p, b, N = args["p"], args["b"], args["N"]
+    pts = [(x, y) for x in range(p) for y in range(p) if (y * y - x * x * x - b) % p == 0]
+    saved = {k: getattr(sp, k) for k in ("P", "N", "A", "B", "Gx", "Gy", "G")}
+    bad = []
+    try:
+        sp.P, sp.N, sp.A, sp.B, sp.Gx, sp.Gy, sp.G = p, N, 0, b, pts[0][0], pts[0][1], pts[0]
+        allp = [(0, 0)] + pts
+        o = lambda Q: None if Q == (0, 0) else Q
+        e = lambda Q: (0, 0) if Q is None else Q
+        for A_ in allp:
+            for B_ in allp:
+                if tuple(sp.add(A_, B_)) != e(aff_add(o(A_), o(B_), p)):
+                    bad.append(("add", A_, B_))
+                for z1 in range(1, p):
+                    Aj = (A_[0] * z1 * z1 % p, A_[1] * z1 ** 3 % p, z1)
+                    Bj = (B_[0] * 4 % p, B_[1] * 8 % p, 2)
+                    if A_ != (0, 0) and B_ != (0, 0) and tuple(sp.from_jacobian(sp.jacobian_add(Aj, Bj))) != e(aff_add(o(A_), o(B_), p)):
+                        bad.append(("jacobian_add", A_, B_, z1))
+            for n in range(-N - 3, 2 * N + 4):
+                exp = None
+                for _ in range(n % N):
+                    exp = aff_add(exp, o(A_), p)
+                if tuple(sp.multiply(A_, n)) != e(exp):
+                    bad.append(("multiply", A_, n))
+    except Exception as ex:
+        bad.append((repr(ex)[:60],))
+    finally:
+        for k, v in saved.items():
+            setattr(sp, k, v)
+    return (len(bad) > 0), "c18_small GF(%d): %d mismatches %s" % (p, len(bad), str(bad[:3])[:200])
